@@ -11,7 +11,7 @@ def run(res, replay=None):
     rng = random.Random(res.seed)
     res.rule = ('identities stream: random single-locus configurations (n<=5, 1-2 demes, three models, 1-3 epochs, with/'
                 'without end time): sum of SFS = branch length, size-weighted sum = n * height, folded = fold(unfolded), '
-                'sum of SFS covariances = var(branch length), height/length moments of order 1 and 2 on the lineage- vs the '
+                'sum of (folded and unfolded) SFS covariances = var(branch length) and diag(cov) = var, with the cached second-order properties read in different orders (cov first / corr first / touch()), height/length moments of order 1 and 2 on the lineage- vs the '
                 'block-counting representation (forced by BlockCountingUnitReward), at 1e-9/1e-8 on the implementation; '
                 'the reward vectors themselves are compared exactly with the Gallina model by the statespace stream')
     res.assumptions = []
@@ -19,6 +19,6 @@ def run(res, replay=None):
     specs = [replay['replay']['case']['spec']] if replay else \
         [gen.rand_spec(rng, n_total=rng.choice([2, 3, 4, 4, 5]), n_demes=rng.choice([1, 1, 2]), n_epochs=rng.choice([1, 2, 3]))
          for _ in range(ncase)]
-    orc.run_oracle(res, 'identities', [{'spec': s} for s in specs])
+    orc.run_oracle(res, 'identities', [{'spec': s, 'second_order_reads': ['cov', 'corr_first', 'touch'][i % 3]} for i, s in enumerate(specs)])
     space.run_stream(res, 'C11', specs[: (5 if res.tier == 'quick' else 30)])
     res.extra['input_distribution'] = {'n': sorted(gen.effective_n(s) for s in specs)}
